@@ -329,6 +329,71 @@ func init() {
 					}
 				}
 			}
+			// segment-count dimension: structured collections of 4..40 (thorough 120) segments - disjoint, abutting, overlapping
+			// chain, all nested in one, alternating strands - listed ascending, descending and interleaved, with and
+			// without touching 0 and n
+			{
+				maxK := 40
+				if r.Tier == "thorough" {
+					maxK = 120
+				}
+				for k := 4; k <= maxK; k++ {
+					for pat := 0; pat < 5; pat++ {
+						for ord := 0; ord < 3; ord++ {
+							for _, margin := range []int{0, 2} {
+								var sg [][2]int
+								for i := 0; i < k; i++ {
+									a := margin + 4*i
+									var s [2]int
+									switch pat {
+									case 0:
+										s = [2]int{a, a + 2} // disjoint
+									case 1:
+										s = [2]int{a, a + 4} // abutting
+									case 2:
+										s = [2]int{a, a + 6} // overlapping chain
+									case 3:
+										s = [2]int{a + 1, a + 3}
+										if i == 0 {
+											s = [2]int{margin, margin + 4*k + 2} // everything nested in the first
+										}
+									case 4:
+										s = [2]int{a, a + 3}
+										if i%2 == 1 {
+											s = [2]int{a + 3, a} // alternating strands
+										}
+									}
+									sg = append(sg, s)
+								}
+								nn := margin*2 + 4*k + 2
+								if pat == 2 {
+									nn += 2
+								}
+								switch ord {
+								case 1:
+									for i, j := 0, len(sg)-1; i < j; i, j = i+1, j-1 {
+										sg[i], sg[j] = sg[j], sg[i]
+									}
+								case 2:
+									var ev, od [][2]int
+									for i, x := range sg {
+										if i%2 == 0 {
+											ev = append(ev, x)
+										} else {
+											od = append(od, x)
+										}
+									}
+									sg = append(od, ev...)
+								}
+								eval(c09Case{N: nn, Segs: sg})
+								eval(c09Case{N: nn, Segs: sg, Shape: 1})
+								eval(c09Case{N: nn, Segs: sg, Shape: 5})
+							}
+						}
+					}
+				}
+				r.Extra["many_segments_completed"] = maxK
+			}
 			r.Extra["n"] = n
 			r.Assumptions = []string{"regions lie inside [0,n]; at least one region (InvertCircular of an empty collection is outside the quantifier)"}
 			return complete
